@@ -455,6 +455,8 @@ def _c10_cross(results, counters):
 
 def classify_divergence(ta, tb):
     """Known py/C divergences by mechanism (see known_findings.json)."""
+    if '[custom providedBy]' in ta and ta.endswith('-> True') and tb.endswith('-> False'):
+        return 'custom_providedBy_ignored_by_c'
     return None
 
 
